@@ -9,7 +9,8 @@ from . import common, zonescommon as zc
 from rtc import runner, native, pyzones
 from contracts import pyref
 
-CPP_PAIRS = ['ace_time::ExtendedZoneProcessor::processActiveTransition(ace_time::extended::ZoneMatch const*, ace_time::extended::Transition*, ace_time::extended::Transition**)',
+CPP_PAIRS = ['ace_time::ExtendedZoneProcessor::eraOverlapsInterval(ace_time::extended::ZoneEraBroker, ace_time::extended::ZoneEraBroker, ace_time::extended::YearMonthTuple const&, ace_time::extended::YearMonthTuple const&)',
+             'ace_time::ExtendedZoneProcessor::processActiveTransition(ace_time::extended::ZoneMatch const*, ace_time::extended::Transition*, ace_time::extended::Transition**)',
              'ace_time::ExtendedZoneProcessor::createMatch(ace_time::extended::ZoneEraBroker, ace_time::extended::ZoneEraBroker, ace_time::extended::YearMonthTuple const&, ace_time::extended::YearMonthTuple const&)',
              'ace_time::ExtendedZoneProcessor::compareTransitionToMatch(ace_time::extended::Transition const*, ace_time::extended::ZoneMatch const*)',
              'ace_time::ExtendedZoneProcessor::compareEraToYearMonth(ace_time::extended::ZoneEraBroker, signed char, unsigned char)',
@@ -59,7 +60,7 @@ def run(R):
     obs += common.avr_pass(R, CPP_PAIRS)
     from vc.pyvc import PyOutOfReach
     try:
-        pyobs = pyref.python_pair_obligations() + pyref.create_match_obligations() + pyref.process_transition_obligations()
+        pyobs = pyref.python_pair_obligations() + pyref.create_match_obligations() + pyref.process_transition_obligations() + pyref.era_overlap_obligations()
         from contracts import ruleday
         py2, tests, npaths = ruleday.python_obligations()
         pyobs += [(n, pc, g) for (n, pc, g) in py2 if not n.startswith('cover:') and 'calc_day_of_month' in n]
